@@ -332,6 +332,19 @@ class Runner(object):
                 if not isor and not r:
                     return False
             return not isor
+        if isinstance(t, ast.Call) and isinstance(t.func, ast.Attribute) and t.func.attr == "is_integer" and not t.args and isinstance(t.func.value, ast.Name):
+            # float.is_integer() is False for inf and nan: on the true outcome the float is finite (int() cannot fail on it)
+            v = self.ev(t.func.value, env, fi, cls)
+            res = self.choose(2) == 0
+            if res and v.kinds <= NUMERIC:
+                env[t.func.value.id] = V(v.kinds, ident=v.ident, tag="finite", derived=v.derived)
+            return res
+        if isinstance(t, ast.Call) and isinstance(t.func, ast.Attribute) and (self.idx.qualname(fi.module, t.func, fi) or "") in ("math.isfinite", "numpy.isfinite") and len(t.args) == 1 and isinstance(t.args[0], ast.Name):
+            v = self.ev(t.args[0], env, fi, cls)
+            res = self.choose(2) == 0
+            if res and v.kinds <= NUMERIC:
+                env[t.args[0].id] = V(v.kinds, ident=v.ident, tag="finite", derived=v.derived)
+            return res
         if isinstance(t, ast.Call) and isinstance(t.func, ast.Name) and t.func.id == "isinstance" and len(t.args) == 2:
             v = self.ev(t.args[0], env, fi, cls)
             k = self.isinstance_kinds(t.args[1], fi)
@@ -433,6 +446,8 @@ class Runner(object):
             self.raise_("builtins.TypeError", node)
 
     def element_of(self, it):
+        if it.tag == "valid_types":
+            return V({"str"})  # the declared table maps type names (text) to types: iterating it yields the names
         return V({"any"}, derived=it.derived, tag="element")
 
     def ev(self, e, env, fi, cls):
@@ -518,6 +533,13 @@ class Runner(object):
                 if not checked:
                     self.may_raise(["builtins.KeyError"] + (["builtins.TypeError"] if "any" in i.kinds else []), e)
                 return V(vk or {"any"})
+            if (b.kinds <= DICTS or b.kinds == {"obj"} or "any" in b.kinds) and self.present_key(e):
+                # the value is what this function stores under that key (a cache filled just before, or by an earlier call)
+                stored = self.__dict__.get("_present_stores", {}).get(id(e))
+                if stored is not None:
+                    if i.kinds & UNHASHABLE and "any" not in i.kinds:
+                        self.raise_("builtins.TypeError", e)
+                    return self.ev(stored, env, fi, cls)
             return self.subscript(b, i, e)
         if isinstance(e, (ast.ListComp, ast.GeneratorExp, ast.SetComp)):
             g = e.generators[0]
@@ -619,7 +641,54 @@ class Runner(object):
             return V({"any"}, derived=True)
         return V({"obj", "str"}, derived=b.derived)
 
+    def present_key(self, e):
+        """`X[k]` read right after `if k not in X: X[k] = ...` (or inside `if k in X:`): the key is there, no KeyError"""
+        memo = self.__dict__.setdefault("_present_memo", {})
+        fn = None
+        for f_ in self.idx.funcs:
+            node = getattr(f_, "node", None)
+            if node is not None and node.lineno <= getattr(e, "lineno", -1) <= (node.end_lineno or 0) and any(e is x for x in ast.walk(node)):
+                fn = node
+                break
+        if fn is None:
+            return False
+        if id(fn) not in memo:
+            safe = set()
+
+            def scan(stmts):
+                for k, st in enumerate(stmts):
+                    for f2 in ("body", "orelse", "finalbody"):
+                        v = getattr(st, f2, None)
+                        if isinstance(v, list) and v and isinstance(v[0], ast.stmt):
+                            scan(v)
+                    for h in getattr(st, "handlers", []) or []:
+                        scan(h.body)
+                    if isinstance(st, ast.If) and isinstance(st.test, ast.Compare) and len(st.test.ops) == 1 and isinstance(st.test.ops[0], (ast.In, ast.NotIn)):
+                        key, base = ast.dump(st.test.left), ast.dump(st.test.comparators[0])
+                        if isinstance(st.test.ops[0], ast.NotIn):
+                            fill_stmts = [a_ for b_ in st.body for a_ in ast.walk(b_) if isinstance(a_, ast.Assign) and len(a_.targets) == 1 and isinstance(a_.targets[0], ast.Subscript) and ast.dump(a_.targets[0].value) == base and ast.dump(a_.targets[0].slice) == key]
+                            fills = bool(fill_stmts)
+                            if fills and not st.orelse:
+                                for later in stmts[k + 1:]:
+                                    for x in ast.walk(later):
+                                        if isinstance(x, ast.Subscript) and isinstance(x.ctx, ast.Load) and ast.dump(x.value) == base and ast.dump(x.slice) == key:
+                                            safe.add(id(x))
+                                            if len(fill_stmts) == 1:
+                                                self.__dict__.setdefault("_present_stores", {})[id(x)] = fill_stmts[0].value
+                        else:
+                            for b_ in st.body:
+                                for x in ast.walk(b_):
+                                    if isinstance(x, ast.Subscript) and isinstance(x.ctx, ast.Load) and ast.dump(x.value) == base and ast.dump(x.slice) == key:
+                                        safe.add(id(x))
+            scan(fn.body)
+            memo[id(fn)] = safe
+        return id(e) in memo[id(fn)]
+
     def subscript(self, b, i, e):
+        if (b.kinds <= DICTS or b.kinds == {"obj"} or "any" in b.kinds) and self.present_key(e):
+            if i.kinds & UNHASHABLE and "any" not in i.kinds:
+                self.raise_("builtins.TypeError", e)
+            return V({"any"}, derived=b.derived)
         if b.tag in ("valid_types",):
             if i.kinds & UNHASHABLE and "any" not in i.kinds:
                 self.raise_("builtins.TypeError", e)
@@ -744,7 +813,7 @@ class Runner(object):
                 return V({short})
             prov = "conv:%s:%s" % (short, "raw" if a0.ident else "derived")
             if k <= NUMERIC:
-                if short == "int" and "float" in k:
+                if short == "int" and "float" in k and a0.tag != "finite":
                     # a float can be inf or nan (`1e999` lexes as a FLOAT and is inf; float("nan") from text): int() of those raises
                     self.may_raise(["builtins.OverflowError", "builtins.ValueError"], e)
                 return V({short}, tag=prov)
